@@ -97,11 +97,14 @@ def oracle(s, keep, drop):
 def run(ctx):
     res = ctx.res
     res.rule = ("strings: 55% grammar-directed valid expressions, 15% single-edit mutants, 15% token soups, 15% strings with "
-                "unsupported / non-ASCII characters; each in both padding modes; distinct = distinct string; non-trivial = "
+                "unsupported / non-ASCII characters; plus, for a tenth of them, 5-7 variants with ONE unsupported blank-like character "
+                "(Unicode whitespace, zero-width space, BOM) next to a supported blank, at an end or inside a run; each in both padding modes; distinct = distinct string; non-trivial = "
                 "at least 2 tokens before EOF or rejected for an unsupported character")
     res.suites = ["lex (Tokenizer.tokenize vs extracted Lexer.tokenize)", "oracle: C11 statement on implementation output"]
     n = ctx.n(4000, 60000)
-    ss = list(dict.fromkeys(corpus() + gens.strings(ctx.rnd, n)))
+    base = gens.strings(ctx.rnd, n)
+    ub = [v for s0 in base[:n // 10] if all(ord(c) < 128 for c in s0) for v in gens.unsupported_blank_variants(ctx.rnd, s0)]
+    ss = list(dict.fromkeys(corpus() + base + ub))
     cases = [(s, ex) for s in ss for ex in (False, True)]
     model = [parse_model(l) for l in common.drive(model_lines(cases))] if ctx.driver_ok else [("MODEL", "no driver")] * len(cases)
     k = 0
@@ -127,7 +130,7 @@ def run(ctx):
 
 def corpus():
     return ["", " ", "4x + sgn(–3.5]", "sgn", "sgnx", "xsgn", "s g n", "1.2.3", "..", "x\ty\r\n", "a[b]c", "12abc34", "sgn(sgn(x))",
-            "SGN", "Sgn(x)", "x×y", "3−2", "x_1", "١٢", "２", "e", "1e5", "4!", "a=b=c"]
+            "SGN", "Sgn(x)", "x×y", "3−2", "x_1", "١٢", "２", "e", "1e5", "4!", "a=b=c", "4x \xa0+ 2", "x \x0c", "\t\u2003y", "2 \x1f3"]
 
 
 def replay(payload):
